@@ -976,13 +976,21 @@ def wrap_strings(rng, spec, note=lambda k: None, p=0.5):
         elif src == 'raw':
             f['name'] = w(f['name'], 'metric-name', name=True)
             for smp in f['samples']:
-                smp['labels'] = [[w(k, 'label-name', name=True), w(v, 'label-value')] for k, v in smp['labels']]
+                # (raw samples keep their data — the samples of one label group must go on sharing it: only the type changes)
+                smp['labels'] = [[w(k, 'label-name', name=True), w(v, 'label-value', keep=True)] for k, v in smp['labels']]
+                if smp.get('ex') is not None:          # (C04 shape) exemplar label values
+                    smp['ex']['labels'] = [[k, w(v, 'exemplar-value', keep=True)] for k, v in smp['ex']['labels']]
         else:
             f['labelnames'] = [w(x, 'label-name', name=True) for x in f['labelnames']]
             for ch in f['children']:
                 ch['lv'] = [w(x, 'label-value:labels()') for x in ch['lv']]
                 if ch.get('info') is not None:
                     ch['info'] = [[w(k, 'label-name', name=True), w(v, 'info-value')] for k, v in ch['info']]
+                for op in ch.get('ops', []):           # (C04 shape) info() values and exemplar label values of inc()/observe()
+                    if op.get('info') is not None:
+                        op['info'] = [[w(k, 'label-name', name=True), w(v, 'info-value')] for k, v in op['info']]
+                    if op.get('ex') is not None:
+                        op['ex'] = [[k, w(v, 'exemplar-value', keep=True)] for k, v in op['ex']]
             if f.get('states'):
                 f['states'] = [w(x, 'state', keep=True) for x in f['states']]
     return used
